@@ -1343,3 +1343,179 @@ Proof.
   split; [vm_compute; reflexivity|]. split; [eexists; split; [vm_compute; reflexivity|split; vm_compute; reflexivity]|].
   split; vm_compute; reflexivity.
 Qed.
+
+(* ------------------------------------------------------------------------------------------ *)
+(** * Part 8: processors that panic — what a panicking read leaves behind *)
+
+Lemma pvalue_S po pan f st n : pvalue po pan (S f) st n =
+  match nth_error st n with
+  | None => None
+  | Some (Param _ v _) => Some (st, POk v)
+  | Some (Struct sn) =>
+      do o <- stale po (S f) st n;
+      if o then
+        do '(st1, oins) <- pread_ports (pvalue po pan f) st (ids_of sn);
+        match oins with
+        | None => Some (st1, PPanic)
+        | Some ins =>
+            if pan n ins then Some (st1, PPanic)
+            else
+              do vers <- map_opt (ver_of st1) (map snd (po Rec n (raw_deps (sn_ports sn))));
+              Some (set_nth n (Struct (exec_node sn (sn_proc sn ins) vers)) st1, POk (sn_proc sn ins))
+        end
+      else Some (st, POk (sn_cache sn))
+  end.
+Proof. reflexivity. Qed.
+
+Section Panics.
+  Variable po : order.
+  Hypothesis PO : perm_ok po.
+  Variable pan : pantab.
+  Variable rk : id -> nat.
+
+  (* some processor panics on the from-scratch values of its inputs (current wiring and parameters) *)
+  Definition genuine (g : graph) : Prop :=
+    exists m idsm proc ins F, nth_error g m = Some (GStruct idsm proc) /\
+      map_opt (map_opt (eval_scratch F g)) idsm = Some ins /\ pan m ins = true.
+
+  Definition psim (st : store) (st' : store) : Prop :=
+    Pre rk st' /\ graph_of st' = graph_of st /\ store_le st st'.
+
+  Lemma psim_trans a b c : psim a b -> psim b c -> psim a c.
+  Proof.
+    intros (P1 & G1 & L1) (P2 & G2 & L2). split; auto. split; [congruence|eapply store_le_trans; eauto].
+  Qed.
+
+  Variable f0 : nat.
+  Hypothesis IH : forall st n st' r, Pre rk st -> pvalue po pan f0 st n = Some (st', r) ->
+    psim st st' /\ match r with POk v => value po f0 st n = Some (st', v) | PPanic => genuine (graph_of st) end.
+
+  Lemma pread_list_sim : forall l st st1 oxs, Pre rk st -> pread_list (pvalue po pan f0) st l = Some (st1, oxs) ->
+    psim st st1 /\
+    match oxs with Some xs => read_list (value po f0) st l = Some (st1, xs) | None => genuine (graph_of st) end.
+  Proof.
+    induction l as [|d r IHl]; simpl; intros st st1 oxs HP H.
+    - injection H as <- <-. split; [|reflexivity]. split; auto. split; auto. apply store_le_refl.
+    - apply bind_some in H as [[sa x] [E1 H]]. destruct (IH _ _ _ _ HP E1) as [S1 O1].
+      destruct x as [v|].
+      + apply bind_some in H as [[sb xs] [E2 H]]. injection H as <- <-.
+        destruct (IHl _ _ _ (proj1 S1) E2) as [S2 O2]. split; [eapply psim_trans; eauto|].
+        destruct xs as [xs|]; simpl.
+        * rewrite O1. simpl. rewrite O2. reflexivity.
+        * destruct S1 as (_ & G & _). rewrite <- G. exact O2.
+      + injection H as <- <-. split; auto.
+  Qed.
+
+  Lemma pread_ports_sim : forall ps st st1 oxss, Pre rk st -> pread_ports (pvalue po pan f0) st ps = Some (st1, oxss) ->
+    psim st st1 /\
+    match oxss with Some xss => read_ports (value po f0) st ps = Some (st1, xss) | None => genuine (graph_of st) end.
+  Proof.
+    induction ps as [|l r IHp]; simpl; intros st st1 oxss HP H.
+    - injection H as <- <-. split; [|reflexivity]. split; auto. split; auto. apply store_le_refl.
+    - apply bind_some in H as [[sa oxs] [E1 H]]. destruct (pread_list_sim _ _ _ _ HP E1) as [S1 O1].
+      destruct oxs as [xs|].
+      + apply bind_some in H as [[sb xss] [E2 H]]. injection H as <- <-.
+        destruct (IHp _ _ _ (proj1 S1) E2) as [S2 O2]. split; [eapply psim_trans; eauto|].
+        destruct xss as [xss|]; simpl.
+        * rewrite O1. simpl. rewrite O2. reflexivity.
+        * destruct S1 as (_ & G & _). rewrite <- G. exact O2.
+      + injection H as <- <-. split; auto.
+  Qed.
+
+  (* the inputs a successful port read delivers are the from-scratch values *)
+  Lemma read_ports_eval : forall ps st st1 xss, Pre rk st -> read_ports (value po f0) st ps = Some (st1, xss) ->
+    map_opt (map_opt (eval_scratch f0 (graph_of st))) ps = Some xss.
+  Proof.
+    intros ps st st1 xss HP H.
+    set (R := fun a b : store => Pre rk a -> Pre rk b /\ graph_of b = graph_of a).
+    assert (Rrefl : forall s, R s s) by (intros s P; split; auto).
+    assert (Rtrans : forall a b c, R a b -> R b c -> R a c).
+    { intros a b c H1 H2 Pa. destruct (H1 Pa) as [Pb G1]. destruct (H2 Pb) as [Pc G2]. split; congruence. }
+    assert (Rrd : forall s d s' x, True -> value po f0 s d = Some (s', x) -> R s s').
+    { intros s d s' x _ Hv Ps. destruct (value_spec po PO rk _ _ _ _ _ Ps Hv) as (_ & _ & P' & (G & _) & _). split; auto. }
+    assert (HD : Forall (Forall (fun _ : id => True)) ps) by (apply Forall_nested_concat; auto).
+    destruct (read_ports_split (value po f0) R (fun _ => True) Rrefl Rtrans Rrd ps st st1 xss HD H) as [_ F].
+    apply Forall2_nested_map_opt. eapply Forall2_nested_impl; [|exact F].
+    intros d x (sa & sb & Ra & Hv & _). destruct (Ra HP) as [Pa Ga].
+    destruct (value_spec po PO rk _ _ _ _ _ Pa Hv) as (He & _). rewrite Ga in He. exact He.
+  Qed.
+End Panics.
+
+(* A read with panicking processors, from a well-formed state: the state it leaves is well formed again
+   (same wiring, every node's record only moved forward); if it returns a value it is exactly the read of the
+   panic-free model (so that value is the from-scratch value); if it panics, some processor does panic on
+   the from-scratch values of its inputs — the panic is genuine for the current wiring and parameters. *)
+Lemma pvalue_sim po pan rk : perm_ok po -> forall f st n st' r,
+  Pre rk st -> pvalue po pan f st n = Some (st', r) ->
+  psim rk st st' /\ match r with POk v => value po f st n = Some (st', v) | PPanic => genuine pan (graph_of st) end.
+Proof.
+  intros PO. induction f as [|f0 IH]; intros st n st' r HP H; [discriminate|].
+  rewrite pvalue_S in H. rewrite value_S.
+  destruct (nth_error st n) as [[ver w sets|sn]|] eqn:En; [| |discriminate].
+  - injection H as <- <-. split; auto. split; auto. split; auto. apply store_le_refl.
+  - apply bind_some in H as [o [Es H]]. rewrite Es. simpl. destruct o.
+    + apply bind_some in H as [[st1 oins] [Ep H]].
+      destruct (pread_ports_sim po pan rk f0 IH _ _ _ _ HP Ep) as [S1 O1].
+      destruct oins as [ins|].
+      * destruct (pan n ins) eqn:Epan.
+        -- injection H as <- <-. split; auto.
+           exists n, (ids_of sn), (sn_proc sn), ins, f0. split; [rewrite graph_nth, En; reflexivity|].
+           split; auto. eapply read_ports_eval; eauto.
+        -- apply bind_some in H as [vers [Ev H]]. injection H as <- <-.
+           assert (Hval : value po (S f0) st n = Some (set_nth n (Struct (exec_node sn (sn_proc sn ins) vers)) st1, sn_proc sn ins)).
+           { rewrite value_S, En, Es. simpl. rewrite O1. simpl. rewrite Ev. reflexivity. }
+           split; [|rewrite value_S, En, Es in Hval; exact Hval].
+           destruct (value_spec po PO rk _ _ _ _ _ HP Hval) as (_ & _ & P' & (G & _) & _).
+           split; auto. split; auto. eapply value_le; eauto.
+      * injection H as <- <-. split; auto.
+    + injection H as <- <-. split; auto. split; auto. split; auto. apply store_le_refl.
+Qed.
+
+(* histories in which reads may panic *)
+Definition pstep (pan : pantab) (orc : oracle) (s : state) (o : op) : option state :=
+  match o with
+  | Read n => do '(st', _) <- pvalue (orc (clock s)) pan (fuel_of (nodes s)) (nodes s) n;
+              Some {| nodes := st'; clock := S (clock s) |}
+  | _ => do '(s', _) <- step orc s o; Some s'
+  end.
+Fixpoint prun (pan : pantab) (orc : oracle) (s : state) (h : list op) : option state :=
+  match h with [] => Some s | o :: r => do s' <- pstep pan orc s o; prun pan orc s' r end.
+
+Lemma pstep_WF pan orc s o s' : oracle_ok orc -> WF (nodes s) /\ VC (nodes s) -> pstep pan orc s o = Some s' ->
+  WF (nodes s') /\ VC (nodes s').
+Proof.
+  intros PO [W V] H. destruct o as [n v | n input src | n input | n]; cbn [pstep] in H;
+    try (apply bind_some in H as [[s1 r] [E H]]; injection H as <-;
+         split; [eapply step_WF; eauto | apply step_inv in E; eapply step_store_VC; eauto]).
+  apply bind_some in H as [[st' r] [E H]]. injection H as <-. simpl.
+  destruct W as [I [rk Rk]].
+  destruct (pvalue_sim _ pan rk (PO _) _ _ _ _ _ (conj I Rk) E) as [([I' R'] & _ & L) _].
+  split; [split; eauto | eapply VC_le; eauto].
+Qed.
+
+Lemma prun_WF pan orc : oracle_ok orc -> forall h s s', WF (nodes s) /\ VC (nodes s) -> prun pan orc s h = Some s' ->
+  WF (nodes s') /\ VC (nodes s').
+Proof.
+  intros PO. induction h as [|o r IH]; simpl; intros s s' W H.
+  - injection H as <-. auto.
+  - apply bind_some in H as [s1 [E H]]. eapply IH; [|exact H]. eapply pstep_WF; eauto.
+Qed.
+
+(* after ANY history, panicking reads included, under every enumeration order: a read that returns a value
+   returns the from-scratch value; a read that panics does so because some processor panics on the
+   from-scratch values of its inputs; versions still count completed executions *)
+Theorem read_fresh_with_panics pan orc ds h s n st' r :
+  oracle_ok orc -> prun pan orc (init ds) h = Some s ->
+  pvalue (orc (clock s)) pan (fuel_of (nodes s)) (nodes s) n = Some (st', r) ->
+  match r with
+  | POk v => eval_now s n = Some v
+  | PPanic => genuine pan (graph_of (nodes s))
+  end /\ graph_of st' = graph_of (nodes s) /\ VC st'.
+Proof.
+  intros PO R H.
+  destruct (prun_WF pan orc PO _ _ _ (conj (init_WF ds) (init_VC ds)) R) as [[I [rk Rk]] V].
+  destruct (pvalue_sim _ pan rk (PO _) _ _ _ _ _ (conj I Rk) H) as [(P' & G & L) O].
+  split; [|split; auto; eapply VC_le; eauto].
+  destruct r as [v|]; auto.
+  destruct (value_spec _ (PO _) rk _ _ _ _ _ (conj I Rk) O) as (He & _). exact He.
+Qed.
